@@ -939,3 +939,8 @@ def _(ctx):
         else:
             ctx.record('path%d.warned' % j, PROVED, 'B', 0, 'the warning is set on this path')
     ctx.record('paths', PROVED if n_unflag >= 2 else FAILED, 'B', 0, '%d paths, %d leave the flag cleared' % (len(ps), n_unflag))
+
+# Contracts on single calls carry over to every call in a process only if no function keeps state between calls: C19's static-frame obligation is a lemma here.
+from contracts.shared import reregister as _rr_static
+from contracts import c19 as _c19_static
+_rr_static('C05', 'C19', 'C19.no_stateful_local_statics', 'C05.lemma.no_state_between_calls', replay=None)
